@@ -45,6 +45,32 @@ func fzPtrErrNil() (*pool.K0, *rt.SentinelErr) { return &pool.K0{}, nil }
 func fzPtrErrSet() (*pool.K0, *rt.SentinelErr) { return nil, &rt.SentinelErr{Ctor: -2, Nth: -2} }
 func fzStructErrOnly() rt.ZeroErr              { return rt.ZeroErr{} }
 
+// interface implemented by pointer receivers (fzPR) and by value receivers (fzVR)
+type fzIface interface{ FzMark() }
+type fzPR struct{ n int }
+type fzVR struct{ n int }
+
+func (p *fzPR) FzMark() {}
+func (v fzVR) FzMark()  {}
+
+func fzValPtrRecv() fzPR  { return fzPR{1} }
+func fzValValRecv() fzVR  { return fzVR{1} }
+func fzPtrPtrRecv() *fzPR { return &fzPR{1} }
+
+type fzConsumer struct{}
+type fzIfaceIn struct {
+	godi.In
+	Dep fzIface
+}
+type fzIfaceGroupIn struct {
+	godi.In
+	Deps []fzIface `group:"fz"`
+}
+
+func fzTakesIface(d fzIface) *fzConsumer              { return &fzConsumer{} }
+func fzTakesIfaceIn(in fzIfaceIn) *fzConsumer         { return &fzConsumer{} }
+func fzTakesIfaceGroup(in fzIfaceGroupIn) *fzConsumer { return &fzConsumer{} }
+
 type fzIn struct {
 	godi.In
 	A *pool.K1 `optional:"true"`
@@ -183,6 +209,94 @@ func runC15Fuzz(c *eng.Ctx, cr *caseRunner) {
 			c.R.Sample(map[string]any{"kind": "api-fuzz", "service_value": sv.name, "option_sets": len(optSets)})
 		}
 		c.R.End(idx, eng.Hash("c15-fuzz-add", sv.name), true)
+	}
+	// whatever an Add call with As accepted must be usable BY CONSUMERS of that interface
+	// (positional parameter, parameter-object field, group slice) without a panic: results
+	// handed out by value whose interface is implemented by the pointer type only, by the value
+	// type, and pointer results
+	{
+		type aliasCase struct {
+			name string
+			ctor any
+		}
+		aliasCases := []aliasCase{
+			{"value-result-pointer-receiver", fzValPtrRecv}, {"value-result-value-receiver", fzValValRecv}, {"pointer-result-pointer-receiver", fzPtrPtrRecv},
+		}
+		consumers := []struct {
+			name string
+			ctor any
+			opts func() []godi.AddOption
+		}{
+			{"positional", fzTakesIface, nil}, {"in-field", fzTakesIfaceIn, nil}, {"group-slice", fzTakesIfaceGroup, func() []godi.AddOption { return []godi.AddOption{godi.Group("fz")} }},
+		}
+		for _, ac := range aliasCases {
+			idx, mine := cr.next()
+			if !mine {
+				continue
+			}
+			c.R.Begin(idx)
+			for _, cons := range consumers {
+				for _, life := range allLifetimes {
+					coll := godi.NewCollection()
+					opts := []godi.AddOption{godi.As[fzIface]()}
+					if cons.opts != nil {
+						opts = append(opts, cons.opts()...)
+					}
+					var addErr error
+					pan := guarded(func() {
+						switch life {
+						case godi.Singleton:
+							addErr = coll.AddSingleton(ac.ctor, opts...)
+						case godi.Scoped:
+							addErr = coll.AddScoped(ac.ctor, opts...)
+						default:
+							addErr = coll.AddTransient(ac.ctor, opts...)
+						}
+					})
+					c.R.Count("fuzz_calls", 1)
+					if pan != nil {
+						viol(idx, "api-call-panics", "Add-As:"+ac.name, fmt.Sprintf("Add%s(%s, As[iface]) panicked: %v", lifeName(life), ac.name, pan))
+						continue
+					}
+					if addErr != nil {
+						c.R.Count("alias_adds_rejected", 1)
+						continue // rejected up front: fine
+					}
+					c.R.Count("alias_adds_accepted", 1)
+					consLife := godi.Transient
+					if life == godi.Scoped {
+						consLife = godi.Scoped
+					}
+					pan = guarded(func() {
+						if consLife == godi.Scoped {
+							_ = coll.AddScoped(cons.ctor)
+						} else {
+							_ = coll.AddTransient(cons.ctor)
+						}
+						p, berr := coll.Build()
+						c.R.Count("fuzz_calls", 2)
+						if berr != nil || p == nil {
+							return
+						}
+						defer p.Close()
+						sc, serr := p.CreateScope(nil)
+						if serr != nil {
+							return
+						}
+						defer sc.Close()
+						_, _ = sc.Get(reflect.TypeOf((*fzConsumer)(nil)))
+						_, _ = godi.Resolve[*fzConsumer](sc)
+						_, _ = godi.Resolve[fzIface](sc)
+						_, _ = godi.ResolveGroup[fzIface](sc, "fz")
+						c.R.Count("fuzz_calls", 4)
+					})
+					if pan != nil {
+						viol(idx, "api-call-panics", "consumer-of-accepted-alias:"+ac.name+":"+cons.name, fmt.Sprintf("Add%s(%s, As[iface]) was accepted; resolving a consumer that takes the interface as %s panicked: %v", lifeName(life), ac.name, cons.name, pan))
+					}
+				}
+			}
+			c.R.End(idx, eng.Hash("c15-fuzz-alias", ac.name), true)
+		}
 	}
 	// collection / provider / scope entry points with odd arguments
 	type call struct {
